@@ -221,7 +221,8 @@ func genHostile(rt *rapid.T) (string, []string) {
 				if rapid.IntRange(0, 9).Draw(rt, "cmt") == 0 {
 					c := rapid.SampledFrom(hostileComments).Draw(rt, "hc")
 					if strings.HasPrefix(c, "--") {
-						c += "\n"
+						// the line comment ends with its line: LF or CRLF, with or without trailing blanks
+						c += rapid.SampledFrom([]string{"\n", "\n", "  \n", "\r\n", "  \r\n", " \t\r\n"}).Draw(rt, "cmt_eol")
 					}
 					sep = sep + c + rapid.SampledFrom([]string{"", " ", "\n", "  "}).Draw(rt, "aftercmt")
 					cl["comment_with_quote_or_keyword"] = true
